@@ -531,6 +531,7 @@ class TreeStub:
     def __deepcopy__(self, memo):
         c = TreeStub(**self._params)
         c._fitted = self._fitted
+        c._unseeded = getattr(self, '_unseeded', None)
         for k in ('feature_importances_', 'rng', 'n_features_in_'):
             if k in self.__dict__:
                 c.__dict__[k] = self.__dict__[k]
@@ -548,6 +549,9 @@ class TreeStub:
         if X.shape[0] != len(y):
             raise ValueError('Number of labels does not match number of samples')
         self._fitted = (X.shape, _matkey(X), _matkey(y), [tuple(_arg(x) for x in row) for row in X])
+        # random_state=None: scikit-learn draws from numpy's process-global generator, i.e. the tree is a function of
+        # something outside the bandit - an arbitrary fresh value per fit
+        self._unseeded = cur().fresh('tree_unseeded_fit', 'Int').e if self._params.get('random_state') is None else None
         self.n_features_in_ = X.shape[1]
         self.feature_importances_ = np.zeros(X.shape[1])
         return self
@@ -566,6 +570,8 @@ class TreeStub:
         rs = lift(self._params.get('random_state') if self._params.get('random_state') is not None else 0)
         if rs.sort() != I:
             rs = z3.ToInt(rs)
+        if getattr(self, '_unseeded', None) is not None:
+            rs = self._unseeded
         c = cur()
         out = []
         terms = []
